@@ -20,9 +20,9 @@ fn level(t: Tier) -> Level {
     Level {
         category: "exploration",
         rule: if t.thorough() {
-            "public get_icao on the nibble vector of frames built with an independent CRC-24: all 2^24 addresses x 9 formats x 3 payloads; all payloads of Hamming weight <= 2 x 30 addresses x 9 formats; the zero address per format; the same families at stride (every 257th address, weight <= 1) through get_message and the reader thread (row key); model ROW with 3 aircraft to depth 3 under {default,-U}: only the row keyed by the frame's reference address may differ, key set grows by at most that key, row.icao == key; distinct_nontrivial = distinct (format, payload, verdict) outcomes + table states"
+            "public get_icao on the nibble vector of frames built with an independent CRC-24: all 2^24 addresses x 9 formats x 3 payloads; all payloads of Hamming weight <= 2 x 30 addresses x 9 formats; the zero address per format; the same families at stride (every 257th address, weight <= 1) through get_message and the reader thread (row key); model ROW with 3 aircraft to depth 3 under default and (quick: 2 aircraft, thorough: 3) under -U, with continuous-run conformance at the leaves: only the row keyed by the frame's reference address may differ, key set grows by at most that key, row.icao == key; distinct_nontrivial = distinct (format, payload, verdict) outcomes + table states"
         } else {
-            "public get_icao on the nibble vector of frames built with an independent CRC-24: all 2^24 addresses x 9 formats x 1 payload; all payloads of Hamming weight <= 1 (weight <= 2 for DF4/DF20/DF17) x 30 addresses x 9 formats; the zero address per format; the same families at stride (every 257th address, weight <= 1) through get_message and the reader thread (row key); model ROW with 3 aircraft to depth 3 under {default,-U}: only the row keyed by the frame's reference address may differ, key set grows by at most that key, row.icao == key; distinct_nontrivial = distinct (format, payload, verdict) outcomes + table states"
+            "public get_icao on the nibble vector of frames built with an independent CRC-24: all 2^24 addresses x 9 formats x 1 payload; all payloads of Hamming weight <= 1 (weight <= 2 for DF4/DF20/DF17) x 30 addresses x 9 formats; the zero address per format; the same families at stride (every 257th address, weight <= 1) through get_message and the reader thread (row key); model ROW with 3 aircraft to depth 3 under default and (quick: 2 aircraft, thorough: 3) under -U, with continuous-run conformance at the leaves: only the row keyed by the frame's reference address may differ, key set grows by at most that key, row.icao == key; distinct_nontrivial = distinct (format, payload, verdict) outcomes + table states"
         },
         assumptions: vec![
             "reference address: AA (bits 9-32) for DF11/17/18; last 24 bits XOR plain MSB-first bit-serial CRC-24 (0x1FFF409) of the preceding bits otherwise".into(),
@@ -341,8 +341,11 @@ fn run(ctx: &mut Ctx) {
         }
     }
     // (4) row isolation over model ROW with three aircraft
-    for opts in [&[][..], &["-U"][..]] {
-        run_row(ctx, opts, 3, 3);
+    run_row(ctx, &[], 3, 3);
+    if thorough {
+        run_row(ctx, &["-U"], 3, 3);
+    } else {
+        run_row(ctx, &["-U"], 2, 3);
     }
     ctx.sample(|| json!({"frame": build(20, 0x4CA123, typical_payload(20)).hex(), "reference_address": "4CA123"}));
     ctx.sample(|| json!({"ROW history": ["A:DF4 31000ft", "B:TC19 v1", "C:DF20 BDS5,0"], "expected": "each frame touches only the row keyed by its own address"}));
